@@ -157,8 +157,8 @@ ConfFile(name) == Join2(ConfRoot, Lit(name \o ".yaml"))
 InGrid(c) == /\ c[3] >= 0 /\ c[3] < Levels
              /\ c[1] >= 0 /\ c[2] >= 0 /\ c[1] < Pow2(c[3]) /\ c[2] < Pow2(c[3])
 Flip(c) == <<c[1], Pow2(c[3]) - 1 - c[2], c[3]>>
-GridTiles == {<<x, y, z>> \in (0 .. Pow2(Levels - 1) - 1) \X (0 .. Pow2(Levels - 1) - 1) \X (0 .. Levels - 1) :
-                InGrid(<<x, y, z>>)}
+\* (an operator with an argument: TLC evaluates constant definitions eagerly, trace validation uses large grids)
+GridTilesOf(n) == {<<x, y, z>> \in (0 .. Pow2(n - 1) - 1) \X (0 .. Pow2(n - 1) - 1) \X (0 .. n - 1) : InGrid(<<x, y, z>>)}
 
 (* dimension parameters *)
 DimKeys == {k \in Keys : k.class # "other"}          \* the regular expression of _get_dimensions
@@ -246,7 +246,7 @@ DimsChecked(ds) ==
 \* WMS: grid.get_affected_tiles only yields coordinates of the grid
 CoordWMS(c) ==
   /\ pc = "coord" /\ req.flow = "wms"
-  /\ c \in GridTiles
+  /\ InGrid(c)
   /\ req' = [req EXCEPT !.tile = c]
   /\ coord' = c /\ pc' = "lock"
   /\ UNCHANGED <<cdims, out, touched>>
@@ -283,7 +283,7 @@ DoPopPath     == \E p \in When(pc = "pop", Str) : PopPath(p)
 DoLayerLookup == \E l \in When(pc = "layer", LayerStr) : LayerLookup(l)
 DoDimsWMS     == \E ds \in When(pc = "dims" /\ req.flow = "wms", ReqDims) : DimsWMS(ds)
 DoDimsChecked == \E ds \in When(pc = "dims" /\ req.flow # "wms", ReqDims) : DimsChecked(ds)
-DoCoordWMS    == \E c \in When(pc = "coord" /\ req.flow = "wms", GridTiles) : CoordWMS(c)
+DoCoordWMS    == \E c \in When(pc = "coord" /\ req.flow = "wms", GridTilesOf(Levels)) : CoordWMS(c)
 DoLimitTile   == \E x \in When(pc = "coord" /\ req.flow # "wms", Idx), y \in Idx, z \in Idx : LimitTile(x, y, z)
 
 Next == DoReceive \/ DoPopPath \/ DoLayerLookup \/ DoDimsWMS \/ DoDimsChecked \/ DoCoordWMS \/ DoLimitTile
